@@ -248,7 +248,7 @@ def unit_poly_vector(ctx):
     # (names x labels x mapping x component x monomial) is what is enumerated as a full product
     variants = [("3", GEOMS[0], None), ("3", GEOMS[0], (ndim - 1,))]
     if thorough:
-        variants += [("mixed", GEOMS[1], None), ("4", GEOMS[2], None)] + [("3", GEOMS[0], (k,)) for k in range(ndim - 1) if ndim < 4]
+        variants += [("mixed", GEOMS[1], None), ("4" if ndim < 4 else "3", GEOMS[2], None)] + [("3", GEOMS[0], (k,)) for k in range(ndim - 1) if ndim < 4]
     nprof, geom, per = ctx.choose("variant", variants)
     n = _nprofile(ndim, nprof)
     dims = _dims(ndim, dimsel)
